@@ -159,17 +159,6 @@ structure RInv (C : Crypto) (t : Tree) (b : Bitfield) (h : Header) (f : File) (a
   heldLt : ∀ i, a.held i = true → i < a.blocks.size
   contig : FirstMissing b h.contiguous
 
-/-- what one logged entry is, relative to the abstract log before and after it -/
-inductive EntryStep (C : Crypto) : Abs → Entry → Abs → Prop
-  | append (a : Abs) (batch : List Bytes) (nodes : List Node) (sig : Bytes) (hne : batch ≠ []) (hsig : sig.length = 64)
-      (sound : ∀ n ∈ nodes, ∃ d o, n = nodeAt C (a.blocks ++ batch.toArray) d o ∧ (o + 1) * 2 ^ d ≤ a.blocks.size + batch.length)
-      (compl : ∀ d o, a.blocks.size < (o + 1) * 2 ^ d → (o + 1) * 2 ^ d ≤ a.blocks.size + batch.length →
-        nodeAt C (a.blocks ++ batch.toArray) d o ∈ nodes) :
-      EntryStep C a { treeNodes := nodes, treeUpgrade := some ⟨0, a.blocks.size, a.blocks.size + batch.length, sig⟩,
-                      bitfield := some ⟨false, a.blocks.size, batch.length⟩ } (a.step (.append batch)).1
-  | clear (a : Abs) (s e : Nat) (hse : s < e) :
-      EntryStep C a { bitfield := some ⟨true, s, e - s⟩ } (a.step (.clear s e)).1
-
 theorem foldl_addNode (nodes : List Node) (t : Tree) :
     nodes.foldl Tree.addNode t = { t with unflushed := insertAll t.unflushed nodes } := by
   induction nodes generalizing t with
@@ -206,7 +195,7 @@ theorem replayEntry_ok (C : Crypto) (hC : HashWF C) (d : Disk) (ol : Oplog.State
         simpa using this
     · simp only [updateContiguous]; split <;> (try split) <;> rfl
     · simp only [updateContiguous]; split <;> (try split) <;> rfl
-  | append batch nodes sig hne hsig sound compl =>
+  | append batch nodes sig fk hne hsig sound compl =>
     have hemp : batch.isEmpty = false := by cases batch with | nil => exact absurd rfl hne | cons _ _ => rfl
     have hk : 0 < batch.length := List.length_pos_iff.mpr hne
     generalize hheld' : (fun i => a.held i || (decide (a.blocks.size ≤ i) && decide (i < a.blocks.size + batch.length))) = held'
@@ -230,7 +219,7 @@ theorem replayEntry_ok (C : Crypto) (hC : HashWF C) (d : Disk) (ol : Oplog.State
       obtain ⟨p, hp, rfl⟩ := hn
       refine ⟨p.1, p.2, ?_⟩
       rw [← hbs', nodeAt_append C a.blocks batch p.1 p.2 (rootsStack_bound _ p (List.mem_reverse.mp hp))]
-    obtain ⟨cs, htr, r1, r2, r3, r4, r5, r6, r7, r8⟩ := truncate_ok C bs' t1 d.tree 0 hN1 hsmall.1 hroots1
+    obtain ⟨cs, htr, r1, r2, r3, r4, r5, r6, r7, r8⟩ := truncate_ok C bs' t1 d.tree fk hN1 hsmall.1 hroots1
     rw [hsize'] at htr
     have hwf1 : MapWF t1.unflushed := by
       rw [ht1']
@@ -266,7 +255,7 @@ theorem replayEntry_ok (C : Crypto) (hC : HashWF C) (d : Disk) (ol : Oplog.State
     -- the commit
     generalize hcs2 : ({ cs with ancestors := a.blocks.size, hash := some (Tree.rootsHash C cs.roots), signature := some sig } : Changeset) = cs2
     have hlen1 : t1.length = a.blocks.size := by rw [ht1']; exact hinv.tree.length
-    have hcommit : t1.commit cs2 = .ok { t1 with roots := refRoots C bs', length := bs'.size, byteLength := totalBytes bs', fork := 0, signature := some sig } := by
+    have hcommit : t1.commit cs2 = .ok { t1 with roots := refRoots C bs', length := bs'.size, byteLength := totalBytes bs', fork := fk, signature := some sig } := by
       have c1 : t1.commitable cs2 = true := by
         rw [← hcs2]; simp [Tree.commitable, r4, r5, r6]
       have c2 : cs2.upgraded = true := by rw [← hcs2]; exact r4
@@ -279,7 +268,7 @@ theorem replayEntry_ok (C : Crypto) (hC : HashWF C) (d : Disk) (ol : Oplog.State
     generalize het : (entryOf cs2 none h1).2 = h2
     have hh2 : h2.contiguous = h1.contiguous ∧ h2.secret = h1.secret ∧ h2.publicKey = h1.publicKey := by
       rw [← het]; simp only [entryOf]; split <;> exact ⟨rfl, rfl, rfl⟩
-    generalize ht2 : ({ t1 with roots := refRoots C bs', length := bs'.size, byteLength := totalBytes bs', fork := 0, signature := some sig } : Tree) = t2 at hcommit
+    generalize ht2 : ({ t1 with roots := refRoots C bs', length := bs'.size, byteLength := totalBytes bs', fork := fk, signature := some sig } : Tree) = t2 at hcommit
     have t2a : t2.roots = refRoots C bs' ∧ t2.length = bs'.size ∧ t2.byteLength = totalBytes bs' ∧ t2.unflushed = t1.unflushed := by
       rw [← ht2]; exact ⟨rfl, rfl, rfl, rfl⟩
     refine ⟨h2, t2, b', ?_, ?_, by rw [hh2.2.1, hh1s.1], by rw [hh2.2.2, hh1s.2]⟩
@@ -300,11 +289,6 @@ theorem replayEntry_ok (C : Crypto) (hC : HashWF C) (d : Disk) (ol : Oplog.State
       · rw [hh2.1]; exact hcontig1
 
 /-! ### replaying the whole log -/
-
-/-- the entries logged since the last flush lead from the log at that flush to the current one -/
-inductive Trace (C : Crypto) : Abs → List Entry → Abs → Prop
-  | nil (a : Abs) : Trace C a [] a
-  | cons (a a1 a2 : Abs) (e : Entry) (es : List Entry) : EntryStep C a e a1 → Small a1 → Trace C a1 es a2 → Trace C a (e :: es) a2
 
 theorem replay_ok (C : Crypto) (hC : HashWF C) (d : Disk) (ol : Oplog.State) (es : List Entry) :
     ∀ (h : Header) (t : Tree) (b : Bitfield) (a a' : Abs), RInv C t b h d.tree a → Trace C a es a' →
